@@ -15,7 +15,7 @@ for d in /verif/seeded/*/; do
   if ! git apply --check $d/patch.diff 2>/dev/null; then echo "$n $p NOAPPLY"; continue; fi
   git apply $d/patch.diff
   for s in $SEEDS; do
-    out=$(cd /verif && VERIF_SEED=$s ./vcheck $p --tier quick --no-evidence 2>&1); rc=$?
+    out=$(cd /verif && VERIF_SEED=$s ./vcheck $p --tier quick --no-evidence --jobs ${RS_JOBS:-16} 2>&1); rc=$?
     nv=$(echo "$out" | grep -c '^VIOLATION')
     if [ $rc -eq 1 ]; then echo "$n $p seed=$s rc=$rc $nv violations"; else echo "$n $p seed=$s rc=$rc MISSED"; fi
   done
